@@ -10,3 +10,6 @@ for d in seeded/*/; do
   git -C /repo checkout -- .
   echo "$id ($pid): check exit $rc $(grep '^VIOLATION' .work/seed_$id.log | head -1)"
 done
+# the runs above rewrote Generated/ Audit/ evidence/ from mutated trees: restore the committed (clean-tree) copies
+git checkout -- lean/PrysmVerif/Generated lean/PrysmVerif/Audit evidence 2>/dev/null
+echo "restored Generated/Audit/evidence from git"
